@@ -272,6 +272,8 @@ type sel struct {
 	// apifu route: a cursor argument written verbatim (name, string literal) and the number of edges
 	// that lie beyond it
 	rawArgName, rawArgVal string
+	// hostile stream: the first argument of a generic field written a second time with this value
+	dupArg *glit
 	between               int
 }
 
@@ -446,6 +448,9 @@ func selsText(b *strings.Builder, ss []*sel) {
 			if s.rawArgName != "" {
 				parts = append(parts, s.rawArgName+": "+fmt.Sprintf("%q", s.rawArgVal))
 			}
+			if s.dupArg != nil && fi != nil && len(fi.args) > 0 {
+				parts = append(parts, fi.args[0].name+": "+s.dupArg.text())
+			}
 			if len(parts) > 0 {
 				b.WriteString("(" + strings.Join(parts, ", ") + ")")
 			}
@@ -561,6 +566,10 @@ func selNode(s *sel) sexp.Node {
 		}
 		if s.rawArgName != "" {
 			kids = append(kids, o(o(), o())) // Argument: Name, StringValue
+		}
+		if s.dupArg != nil && fi != nil && fi.gen != nil && len(fi.args) > 0 {
+			genArgs = append(genArgs, sexp.L(sexp.Str(fi.args[0].name), s.dupArg.sexp()))
+			kids = append(kids, o(o(), s.dupArg.shape()))
 		}
 		kids = append(kids, dirsNodes(s.dirs)...)
 		if s.hasSet {
@@ -1513,7 +1522,21 @@ func allSels(d *doc) []*[]*sel {
 func mutate(r *rng.R, d *doc) {
 	lists := allSels(d)
 	ss := lists[r.Intn(len(lists))]
-	switch r.Intn(7) {
+	which := r.Intn(11)
+	if which >= 7 {
+		// the generic fields exist on Obj only
+		scope := ""
+		for _, x := range *ss {
+			if x.scope != "" {
+				scope = x.scope
+				break
+			}
+		}
+		if scope != "Obj" {
+			which = 0
+		}
+	}
+	switch which {
 	case 0: // spread of an undefined fragment
 		*ss = append(*ss, spread("Undefined"))
 	case 1: // unknown field
@@ -1543,6 +1566,22 @@ func mutate(r *rng.R, d *doc) {
 			n := d.frags[len(d.frags)-1].name
 			*ss = append(*ss, spread(n), spread(n))
 		}
+	case 7: // an argument given twice (5.4.2)
+		a, b := glist(gi(1)), glist(gi(2), gi(3))
+		*ss = append(*ss, &sel{kind: kField, scope: "Obj", name: "lst", alias: "zd", args: []argSrc{{kind: srcGen, g: &a}}, dupArg: &b,
+			hasSet: true, kids: []*sel{f("Obj", "leaf")}})
+	case 8: // an input-object field given twice (5.6.3)
+		l := gobj("r", gi(1), "m", gi(2), "r", gi(3))
+		*ss = append(*ss, &sel{kind: kField, scope: "Obj", name: "inp", alias: "zo", args: []argSrc{{kind: srcGen, g: &l}},
+			hasSet: true, kids: []*sel{f("Obj", "leaf")}})
+	case 10: // a variable of the wrong type (5.8.5): an Int where an input object is expected
+		l := gvar("v0")
+		*ss = append(*ss, &sel{kind: kField, scope: "Obj", name: "inp", alias: "zw", args: []argSrc{{kind: srcGen, g: &l}},
+			hasSet: true, kids: []*sel{f("Obj", "leaf")}})
+	case 9: // a variable of the wrong type (5.8.5): an input object where a list is expected
+		l := gvar("o0")
+		*ss = append(*ss, &sel{kind: kField, scope: "Obj", name: "lst", alias: "zv", args: []argSrc{{kind: srcGen, g: &l}},
+			hasSet: true, kids: []*sel{f("Obj", "leaf")}})
 	}
 }
 
